@@ -26,7 +26,7 @@ CACHE = os.path.join(VERIF, ".cache")
 BUILD = os.path.join(VERIF, "build")
 NPROC = int(os.environ.get("VERIF_JOBS", "16"))
 CXXFLAGS = ["-std=c++11", "-O1", "-fopenmp", "-ffp-contract=off", "-Wno-cpp", "-Wno-deprecated-declarations",
-            "-DAMGCL_VERIF", "-I" + REPO, "-I" + os.path.join(VERIF, "harness")]
+            "-DAMGCL_VERIF", "-I/usr/include/eigen3", "-I" + REPO, "-I" + os.path.join(VERIF, "harness")]
 FORBIDDEN = re.compile(r"\b(Admitted|admit|Axiom|Axioms|Parameter|Parameters|Conjecture|Conjectures)\b|Unset Guard|bypass_check|type-in-type|impredicative-set|Admit Obligations|Unset Universe Checking|Unset Positivity")
 
 sys.path.insert(0, os.path.join(VERIF, "tools"))
